@@ -689,6 +689,13 @@ _process_request_(struct qb_ipcs_connection *c, int32_t ms_timeout)
 		}
 		res = size;
 		goto cleanup;
+	} else if (size > 0 && (size < (ssize_t)sizeof(*hdr) ||
+				hdr->size < 0 || hdr->size > size)) {
+		/* the header claims more than was actually received */
+		qb_util_log(LOG_DEBUG, "malformed request from client (%s)",
+			    c->description);
+		res = -EINVAL;
+		goto cleanup;
 	} else if (size == 0 || hdr->id == QB_IPC_MSG_DISCONNECT) {
 		qb_util_log(LOG_DEBUG, "client requesting a disconnect (%s)",
 			    c->description);
